@@ -110,7 +110,9 @@ def _work(item):
             keys = [kv[0] for kv in concretise_mixed(g, lst, lst['tuples'][0], use_names)]
             # the recorded finding: an input that is an unpopulated cell WITHOUT a node of its
             # own (only reachable through the SELF look-up of ranges with several blanks)
-            unpop = any(i not in g.cells and not L.has_own_node(g, i) for i in lst['ids'])
+            # (cells named as inputs one by one - a whole range supplied as one input is not it)
+            unpop = lst['style'] == 'cells' and any(
+                i not in g.cells and not L.has_own_node(g, i) for i in lst['ids'])
             overlap = bool(set(lst['ids']) & set(outs))
             hazard = L.range_override_hazard(g, ovset) or bool(
                 use_names and L.name_override_hazard(g, ovset))
